@@ -15,7 +15,8 @@
    arbitrary functions: the result of a fresh open is ANY function of the bytes of _metadata and
    of the files it references (thrift parsing is C10's, page decoding C01/C03's business).      *)
 From Coq Require Import NArith Arith List Bool.
-From Pq Require Import Base.Bytes Dataset.FS Dataset.FsPaths Dataset.Crash Dataset.Ops Proofs.CrashProofs Proofs.OpsProofs.
+From Pq Require Import Base.Bytes Dataset.FS Dataset.FsPaths Dataset.Crash Dataset.Ops Proofs.CrashProofs Proofs.OpsProofs
+  Dataset.CrashGen Proofs.CrashGenProofs.
 Import ListNotations.
 
 Theorem C19_checker_sound : forall refs tr, check_safe_trace refs tr = true <-> safe_trace refs tr.
@@ -193,4 +194,94 @@ Example C19_nonvacuous_model :
        (append_trace ex_refs true [[(ex_k0, [[1]]); (ex_k1, [[2]; [3]])]; [(ex_k0, [[4]])]]%N [[5]]%N [[6]]%N) = Some true
   /\ option_map (@length call)
        (append_trace ex_refs true [[(ex_k0, [[1]]); (ex_k1, [[2]; [3]])]; [(ex_k0, [[4]])]]%N [[5]]%N [[6]]%N) = Some 19%nat.
+Proof. vm_compute. repeat split; reflexivity. Qed.
+
+(* ======================= wave 3: the GENERAL commit-point relation (Dataset/CrashGen.v) =======================
+   The summary "starts being rewritten" with the first call that CAN CHANGE _metadata - a write-open of it (today's code),
+   a rename onto it (write a temporary file, then os.replace), its removal.  Read-side events (open for reading, read)
+   are part of the event trace; an I/O fault at one of them interrupts the operation between two effects.          *)
+Theorem C19_gen_checker_sound_complete : forall refs tr, check_safe_gen refs tr = true <-> safe_gen refs tr.
+Proof. exact check_safe_gen_iff. Qed.
+Print Assumptions C19_gen_checker_sound_complete.
+
+(* for EVERY trace in the general relation, interrupted in a call c such that neither c nor any call before it can change
+   _metadata, under the most general damage model: the dataset reads as before, summary and referenced files byte-identical *)
+Theorem C19_gen_crash_safe :
+  forall (R : Type) (parse_md : bytes -> option (list path)) (decode : bytes -> list (option bytes) -> R)
+         (refs : list path) (tr tr1 : list call) (c : call) (tr2 : list call) (s s' : fs),
+    refs_of parse_md s = Some refs ->
+    safe_gen refs tr -> tr = tr1 ++ c :: tr2 ->
+    existsb touches_md tr1 = false -> touches_md c = false ->
+    damaged_by (tr1 ++ [c]) s s' ->
+    read_dataset R parse_md decode s' = read_dataset R parse_md decode s
+    /\ forall q, In q (md_name :: refs) -> lookup q s' = lookup q s.
+Proof. exact gen_crash_safe. Qed.
+Print Assumptions C19_gen_crash_safe.
+
+(* the commit call itself (rename onto / write-open of _metadata) failed before it had any effect *)
+Theorem C19_gen_crash_safe_at_commit :
+  forall (R : Type) (parse_md : bytes -> option (list path)) (decode : bytes -> list (option bytes) -> R)
+         (refs : list path) (tr tr1 : list call) (c : call) (tr2 : list call) (s s' : fs),
+    refs_of parse_md s = Some refs ->
+    safe_gen refs tr -> tr = tr1 ++ c :: tr2 ->
+    existsb touches_md tr1 = false ->
+    damaged_by tr1 s s' ->
+    read_dataset R parse_md decode s' = read_dataset R parse_md decode s
+    /\ forall q, In q (md_name :: refs) -> lookup q s' = lookup q s.
+Proof. exact gen_crash_safe_at_commit. Qed.
+Print Assumptions C19_gen_crash_safe_at_commit.
+
+(* a fault at a READ-side event (open for reading / read of the existing _metadata, of a part file footer) before the commit
+   point: the state is the one the effects issued before it produced, and the dataset reads as before *)
+Theorem C19_read_fault_safe :
+  forall (R : Type) (parse_md : bytes -> option (list path)) (decode : bytes -> list (option bytes) -> R)
+         (refs : list path) (es es1 : list ev) (e : ev) (es2 : list ev) (s : fs),
+    refs_of parse_md s = Some refs ->
+    safe_gen refs (effects es) -> es = es1 ++ e :: es2 ->
+    (match e with Eff _ => False | _ => True end) ->
+    existsb touches_md (effects es1) = false ->
+    read_dataset R parse_md decode (run_events es1 s) = read_dataset R parse_md decode s
+    /\ forall q, In q (md_name :: refs) -> lookup q (run_events es1 s) = lookup q s.
+Proof. exact read_fault_safe. Qed.
+Print Assumptions C19_read_fault_safe.
+
+(* the property's last clause, generalised: an append (complete, interrupted or failed) never opens an existing data file for
+   writing, never renames or removes one (or a directory holding one), and leaves every one byte-identical *)
+Theorem C19_gen_existing_untouched : forall refs tr, safe_gen refs tr ->
+  (forall p t, In (OpenW p t) tr -> ~ In p refs)
+  /\ (forall a b q, In (Rename a b) tr -> In q refs -> under a q = false /\ under b q = false)
+  /\ (forall p q, In (Remove p) tr -> In q refs -> under p q = false)
+  /\ forall s q, In q refs -> lookup q (run_trace tr s) = lookup q s.
+Proof. exact gen_existing_untouched. Qed.
+Print Assumptions C19_gen_existing_untouched.
+
+(* writing the new summary to a temporary file and renaming it onto _metadata (after the part files, all closed) is INSIDE
+   the general relation (it is outside safe_trace / safe_trace_sym, whose commit point is a write-open) *)
+Theorem C19_tmp_rename_is_safe : forall refs parts tmp md,
+  existsb touches_md parts = false -> forallb (fun c => untouched c refs) parts = true ->
+  handles_ok (open_handles parts) = true ->
+  bytes_eqb tmp md_name = false ->
+  (forall q, In q refs -> bytes_eqb tmp q = false /\ under tmp q = false /\ under md_name q = false) ->
+  safe_gen refs (tmp_commit_trace parts tmp md).
+Proof. exact tmp_rename_is_safe. Qed.
+Print Assumptions C19_tmp_rename_is_safe.
+
+(* the general relation CONTAINS the relation today's code is checked to be inside (summary files written in place, in either
+   order): every trace accepted by check_safe_trace_sym is accepted by check_safe_gen - so all C19_gen_* theorems apply to it *)
+Theorem C19_sym_is_gen : forall refs tr, check_safe_trace_sym refs tr = true -> check_safe_gen refs tr = true.
+Proof. exact sym_is_gen. Qed.
+Print Assumptions C19_sym_is_gen.
+
+Definition ex_tmp : path := md_name ++ [46; 116; 109; 112]%N.        (* "_metadata.tmp" *)
+Example C19_nonvacuous_gen :
+  (* today's trace, the either-order trace and the temporary-file trace are accepted; deleting or overwriting a referenced
+     file (before or after the commit point), and committing while a part file is still open, are not *)
+  check_safe_gen [ex_p0] (ex_tr ex_p1) = true
+  /\ check_safe_gen [ex_p0] (ex_tr_swapped ex_p1) = true
+  /\ check_safe_gen [ex_p0] (tmp_commit_trace [OpenW ex_p1 true; Write ex_p1 [5;6]%N; Close ex_p1] ex_tmp [[1;2]%N]) = true
+  /\ check_safe_trace_sym [ex_p0] (tmp_commit_trace [OpenW ex_p1 true; Write ex_p1 [5;6]%N; Close ex_p1] ex_tmp [[1;2]%N]) = false
+  /\ check_safe_gen [ex_p0] (ex_tr ex_p0) = false
+  /\ check_safe_gen [ex_p0] ([OpenW ex_p1 true; Close ex_p1; Remove ex_p0]) = false
+  /\ check_safe_gen [ex_p0] (ex_tr ex_p1 ++ [Remove ex_p0]) = false
+  /\ check_safe_gen [ex_p0] ([OpenW ex_p1 true; Write ex_p1 [5]%N; Rename ex_tmp md_name; Close ex_p1]) = false.
 Proof. vm_compute. repeat split; reflexivity. Qed.
